@@ -357,6 +357,12 @@ func Replay(t *testing.T) {
 	for _, d := range registry {
 		if d.name == rf.Sub {
 			o := d.replay(rf.Case)
+			if o.Err != "" && o.Finding != "" && knownClasses()[o.Finding] {
+				// a listed finding (the driver passes their classes when it replays
+				// regression cases; a known finding's own witness is replayed without)
+				fmt.Printf("REPLAY-KNOWN sub=%s finding=%q\n", rf.Sub, o.Finding)
+				return
+			}
 			if o.Err != "" {
 				fmt.Printf("REPLAY-FAIL sub=%s finding=%q: %s\n", rf.Sub, o.Finding, o.Err)
 				t.Fatalf("replay fails: %s", o.Err)
